@@ -2,16 +2,22 @@
 correspondence between the model and the REAL engine driven by harness/engine_driver.py, and the
 implementation-side oracles of harness/engine_trace.py (Observer) restricted to this property.
 
+Pause clause over the execution tree ("after a pause request is acknowledged the workflow and its running sub-workflows
+are PAUSED"): harness/engine_stoptree.py with coq/Model/StopTree.v (module Tree of Properties/C10.v) - pause / resume on the
+root or a nested execution of call chains of depth 0-3, mixed with stops; correspondence of pause / resume requests with
+the model, oracle: right after an acknowledged pause the execution and every unfinished execution below it is PAUSED.
+
 Self-test (scratch worktrees, VERIF_REPO): reverting any of the engine fix commits recorded in
 known_findings.json makes this or a sibling engine check report a VIOLATION (see DESIGN.md appendix).
 """
+from harness import engine_stoptree
 from harness import engine_trace as et
 
 GEN = ['States']
 PROPS = ['C10'] + ['C01']
 
 MANIFEST = {
-    'level_text': 'Coq theorems (all programs/states/events/histories): no task execution is created while PAUSED by any event except resume, the pause is held, results are still recorded and final; a join-free run with pauses/resumes/stops anywhere never hangs; "resume reaches the same result as the unpaused run" is proved for join-free forward command-free definitions with constant guards (same executions per task, same final task states, same workflow state; C10_pause_resume_same_result_simple) and not proved beyond that class nor for the output, the sub-workflow clauses are not proved: trace correspondence with pause/resume at random positions plus oracle (no creation while PAUSED on committed states; quiescent => final after resume).',
+    'level_text': 'Coq theorems (all programs/states/events/histories): no task execution is created while PAUSED by any event except resume, the pause is held, results are still recorded and final; a join-free run with pauses/resumes/stops anywhere never hangs; "resume reaches the same result as the unpaused run" is proved for join-free forward command-free definitions with constant guards (same executions per task, same final task states, same workflow state; C10_pause_resume_same_result_simple) and not proved beyond that class nor for the output, the pause clause over the execution tree is proved on Model/StopTree.v (every tree / address / state: closed form of the pause walk - exactly the RUNNING executions of the subtree become PAUSED, also below finished ones; after an accepted pause at any address the subtree of that execution is its paused form; finished executions are never touched) and tied to the engine by correspondence of every pause / resume request on generated call chains (depth 0-3, plain / with-items) plus the oracle "acknowledged => the execution and all unfinished executions below it PAUSED"; the other sub-workflow clauses are not proved: trace correspondence with pause/resume at random positions plus oracle (no creation while PAUSED on committed states; quiescent => final after resume).',
     'level_note': 'Model = control-flow core of the engine (one direct-workflow execution, action tasks, joins all/one/N, on-success/on-error/on-complete with guards whose value is part of the program, engine commands fail/succeed/pause/noop, operator pause/resume/stop/rerun/skip, duplicate deliveries). One event = one committed transaction (tx_lock); data flow, policies, with-items and sub-workflows are outside this model (component models / oracles). Trusted: the harness interception points (rpc client, executor, post_tx_queue threads, scheduler rows, clock, uuid source), view abstraction, Gen/States translator.',
     'technique': 'Coq per-step + history induction; trace correspondence with pause/resume injection; oracle',
     'design_ref': '6 C10, 4, 5',
@@ -29,6 +35,8 @@ def run(ctx):
     # quiescent => final, no lost message, no internal error; for C10 also: runs with pause/resume end like runs without
     from harness import engine_explore as ee
     ee.explore(ctx, ['C10', 'C01'], ee.FEATURES, ctx.n(30, 300), 4, suite='engine_explore_C10')
+    ctx.cov['rule'] += '; tree part: ' + engine_stoptree.RULE
+    engine_stoptree.run(ctx, ctx.n(160, 2000), suite='engine_stoptree_C10', props=('C10',))
 
 
 def search(ctx):
@@ -44,7 +52,10 @@ def search(ctx):
         for f in t.failures:
             if f['property'] in PROPS:
                 ctx.fail(f['signature'], f['what'], dict(t.to_json(), events=t.labels[:f['at_event'] + 1], kind='engine-trace'))
+    engine_stoptree.search(ctx, 800, props=('C10',))
 
 
 def replay(obj):
+    if obj.get('replay', obj).get('kind') == 'engine-stoptree':
+        return engine_stoptree.replay(obj)
     return et.replay_case(obj)
